@@ -870,11 +870,23 @@ class Variable(CanBehaveLikeAVariable[T]):
             if isinstance(domain, HashedIterable):
                 self._domain_ = domain
             if isinstance(domain, SymbolicExpression):
-                new_domain = (v[domain._id_] for v in domain._evaluate__())
+                new_domain = self._values_of_domain_expression_(domain)
             elif not is_iterable(domain):
                 new_domain = [HashedValue(domain)]
             new_domain = new_domain or domain
             self._domain_.set_iterable(new_domain)
+
+    @staticmethod
+    def _values_of_domain_expression_(domain: SymbolicExpression) -> Iterable[HashedValue]:
+        """
+        The values of an expression that is the domain of a variable. A query is part of no other query's tree, so nobody
+        else resets it: it is evaluated from a clean state, like its evaluate() does, also when it was evaluated before
+        (on its own, or as the domain of another variable).
+        """
+        if isinstance(domain, ResultQuantifier):
+            domain._reset_cache_()
+        for v in domain._evaluate__():
+            yield v[domain._id_]
 
     def _update_child_vars_from_kwargs_(self):
         if self._kwargs_:
